@@ -681,6 +681,7 @@ class SharesManager(BaseManager):
 
         # First round using the term map
         include_terms = []
+        wildcard_item_sets: list[set[SharedItem]] = []
         for term in search_query.include_terms:
             subterms = re.split(_QUERY_CLEAN_PATTERN, term)
             for subterm in subterms:
@@ -707,16 +708,26 @@ class SharesManager(BaseManager):
                     if not matching_terms:  # Optimization
                         return [], []
 
-                    include_terms.extend(matching_terms)
+                    # An item only needs to contain one of the terms ending
+                    # with the wildcard term
+                    wildcard_items: set[SharedItem] = set()
+                    for matching_term in matching_terms:
+                        wildcard_items |= set(self._term_map[matching_term])
+                    wildcard_item_sets.append(wildcard_items)
                 else:
                     if subterm not in self._term_map:  # Optimization
                         return [], []
 
                     include_terms.append(subterm)
 
-        found_items = set(self._term_map[include_terms[0]])
-        for include_term in include_terms:
-            found_items &= set(self._term_map[include_term])
+        item_sets = [
+            set(self._term_map[include_term]) for include_term in include_terms
+        ]
+        item_sets.extend(wildcard_item_sets)
+
+        found_items = set(item_sets[0])
+        for item_set in item_sets:
+            found_items &= item_set
 
         # Regular expressions on the remaining items
 
